@@ -47,7 +47,12 @@ RULE = ("(i) dyadic: probability vectors with 2..64 (thorough ..512) entries tha
         "copula chains), the first inversion sampler draws to a pairing index past the switch 2*min(L,R) but not to the end, then a "
         "freshly built sampler is swept and judged against q/lambda, then draws are interleaved between all objects (increasing depth "
         "alternating between two new objects, then random); references are pure (M's z1dProject / zdProject enumeration, no `project` "
-        "call on any pairing object). "
+        "call on any pairing object); (vi) hand-built grids CTMCGrid(h, origin_coordinate, axes) whose axes have DIFFERENT numbers of points "
+        "(2 or 3 axes, 2..4 points left of the origin on every axis - the constructor takes one origin coordinate - and 1..6 points on the "
+        "right, pairwise different per axis, uniform or geometric spacing per axis): every run both copula samplers in 2-d once with the "
+        "longest axis first and once with it last, the adapted sampler on one 3-d grid, one equal-length hand-built control (thorough: six "
+        "more grids x both samplers); the target law on these grids is computed from the axis lists of the description alone (cell of a "
+        "state = midpoints to its own axis' neighbours), all of streams (ii)-(v) of a copula chain apply. "
         "non-trivial = at least 3 states of positive probability; distinct = distinct (stream, method, vector / chain description)")
 NOT_PROVED = [
     "alias: Alias.build_law is a theorem about the exact-arithmetic model of `create_alias`; in floats the two clean-up loops may overwrite "
@@ -78,6 +83,9 @@ NOT_PROVED = [
     "(law of u against joint cell mass / lambda over ALL states of the box, lattice of uniforms, fallback never reached) is what sees a "
     "bound that is too small: 2-d, 3-d every run, 4-d in thorough, measured on the grids of the run only; a lost mass below 2^-36 is not "
     "seen (e.g. dependent copula on the asymmetric 3-d credit grid: 3e-21)",
+    "grids whose axes have different numbers of points: nothing new is proved - AdaptedNd.build_law is already stated for one size per axis "
+    "(`os.zip ns`), the tie adnd-build / adnd-cells / adnd-draw and the law oracle are now also run on such grids (hand-built CTMCGrid, "
+    "dimension 2 and 3; the cache-strategy flag `low_nb_of_pts`, which reads len(axes[0]), is mirrored, it does not change the law)",
     "floating point: thresholds are compared at cell midpoints and at boundaries +- 2^-30 width; u exactly on a boundary is a don't-care point",
 ]
 ASSUMPTIONS = ["float sums of a probability vector differ from 1 by a few ulps: the sliver [sum p, 1) of length < 2^-40 (sent to the last leaf / last "
@@ -1130,6 +1138,8 @@ def copula_case(ctx, margins_desc, cop, gkind, gkw, mname, firsts=()):
     mk_model = lambda: zoo.make_copula_model([zoo.make_levy(f, p) for f, p in margins_desc], zoo.make_copula(cop))
     if gkind == "credit":
         mk_grid = lambda: zoo.CTMCCredit(h=gkw["h"], level_a=gkw["a"], model=mk_model(), symmetric_grid=gkw["sym"])
+    elif gkind == "hand":     # the base constructor CTMCGrid(h, origin_coordinate, axes): one explicit axis per margin, lengths may differ
+        mk_grid = lambda: zoo.CTMCGrid(h=gkw["h"], origin_coordinate=gkw["o"], axes=[np.array(a, dtype=float) for a in gkw["axes"]])
     else:
         mk_grid = lambda: zoo.make_grid("fixed", None, gkw["h"], dimension=len(margins_desc), nb_of_points=gkw["nb"])[0]
     method = SamplingMethod[mname]
@@ -1146,10 +1156,24 @@ def copula_case(ctx, margins_desc, cop, gkind, gkw, mname, firsts=()):
     try:
         oc = tuple(int(c) for c in g.origin_coordinate)
         sizes = [len(a) for a in g.axes]
-        ref = MarkovChainLevyCopula(mk_model(), mk_grid(), SamplingMethod.INVERSION).sampling
+        cls["unequal_axes"] = len(set(sizes)) > 1
+        ref_proc = MarkovChainLevyCopula(mk_model(), mk_grid(), SamplingMethod.INVERSION)
+        ref = ref_proc.sampling
         states = [st for st in itertools.product(*[range(k) for k in sizes]) if st != oc]
-        target = {tuple(a - b for a, b in zip(st, oc)): fr(float(ref.probability_to_jump_to_state(tuple(a - b for a, b in zip(st, oc)))))
-                  for st in states}                          # joint mass of the cell / lambda (C01)
+        if gkind == "hand":
+            # pure target: the cell of a state is cut at the midpoints to ITS OWN axis' neighbours (clamped at that axis' ends),
+            # read from the axis lists of the description - no call of grid.left_point / right_point / middle / outside
+            axl = [[float(x) for x in a] for a in gkw["axes"]]
+            lo_c = lambda st: tuple(0.5 * (axl[k][max(0, c - 1)] + axl[k][c]) for k, c in enumerate(st))
+            hi_c = lambda st: tuple(0.5 * (axl[k][c] + axl[k][min(len(axl[k]) - 1, c + 1)]) for k, c in enumerate(st))
+            lam = float(ref_proc.intensity_of_jumps)
+            target = {tuple(a - b for a, b in zip(st, oc)): fr(max(float(ref_proc.model.mass(lo_c(st), hi_c(st))), 0.0) / lam) for st in states}
+            ctx.branches["c02.hand.axis_lengths:" + ("unequal" if len(set(sizes)) > 1 else "equal")] += 1
+            if len(set(sizes)) > 1:
+                ctx.branches["c02.hand.longest_axis:" + ("first" if sizes[0] == max(sizes) else "last" if sizes[-1] == max(sizes) else "inner")] += 1
+        else:
+            target = {tuple(a - b for a, b in zip(st, oc)): fr(float(ref.probability_to_jump_to_state(tuple(a - b for a, b in zip(st, oc)))))
+                      for st in states}                          # joint mass of the cell / lambda (C01)
         # (v) cross-instance history in 2-d: other samplers on identical grids draw before the swept one is built
         others = []
         for m in firsts:
@@ -1232,6 +1256,29 @@ def copula_case(ctx, margins_desc, cop, gkind, gkw, mname, firsts=()):
         interleave_2d(ctx, d, cls, mname, [(mname, s)] + others, mk, cells)
 
 
+def hand_grid_kw(rng, dim, lengths="unequal"):
+    """arguments of a hand-built CTMCGrid(h, origin_coordinate, axes): every axis has `o` points left of 0 (the constructor takes
+    ONE origin coordinate for all axes) spaced h next to the origin, and its own number of points on the right.  `lengths`:
+    "unequal" = the numbers of points per axis are pairwise different where possible and the LONGEST axis is at a random position
+    (first, last or in between - code that reads len(axes[0]) for every axis is wrong in one direction when axes[0] is short and
+    in the other when it is long); "equal" = the same pattern with equal lengths (control).  Beyond the first step the spacing is
+    uniform or geometric per axis, so the axes differ in values as well."""
+    h = rng.choice([0.1, 0.05, 0.025])
+    o = rng.choice([2, 3, 4] if dim == 2 else [2, 3])
+    if lengths == "equal":
+        rights = [rng.choice([2, 3, 4])] * dim
+    else:
+        rights = rng.sample([1, 2, 3, 4, 5, 6] if dim == 2 else [1, 2, 3, 4], dim)
+    axes = []
+    for r in rights:
+        ratio = rng.choice([1.0, 1.0, 1.5, 2.0])
+        steps = [h * ratio ** j for j in range(max(o, r))]
+        left = [-sum(steps[:j]) for j in range(o, 0, -1)]
+        right = [sum(steps[:j]) for j in range(1, r + 1)]
+        axes.append([float(x) for x in left + [0.0] + right])
+    return "hand", {"h": h, "o": o, "axes": axes}
+
+
 def nd_inversion_plan(ctx):
     """(dimension, copula, grid kind, grid arguments) of the n-d INVERSION chains of a run"""
     rng = ctx.rng
@@ -1299,6 +1346,26 @@ def run(ctx):
         gkw = {"h": rng.choice([0.1, 0.05]), "nb": 5 if i == 0 else rng.choice([5, 7, 9])}
         copula_case(ctx, margins, rng.choice(zoo.COPULAS), "fixed", gkw, "BINARYSEARCHTREEADAPTED",
                     firsts=rng.choice([(), ("BINARYSEARCHTREEADAPTED",)]))
+    # hand-built grids CTMCGrid(h, origin_coordinate, axes) whose axes have DIFFERENT numbers of points (no shipped constructor
+    # produces them, the base constructor accepts them): both copula samplers in 2-d with the longest axis first and last, the
+    # adapted sampler in 3-d, an equal-length hand-built control; thorough adds more of each and 3-d INVERSION chains
+    hand = []
+    for first_longest in (True, False):
+        while True:
+            gk = hand_grid_kw(rng, 2)
+            if (len(gk[1]["axes"][0]) > len(gk[1]["axes"][1])) == first_longest:
+                break
+        hand += [(2, m, gk) for m in ("INVERSION", "BINARYSEARCHTREEADAPTED")]
+    hand.append((3, "BINARYSEARCHTREEADAPTED", hand_grid_kw(rng, 3)))
+    hand.append((2, "BINARYSEARCHTREEADAPTED", hand_grid_kw(rng, 2, lengths="equal")))
+    for _ in range(ctx.n(0, 6)):
+        dim = rng.choice([2, 2, 3])
+        gk = hand_grid_kw(rng, dim)
+        hand += [(dim, m, gk) for m in ("INVERSION", "BINARYSEARCHTREEADAPTED")]
+    for dim, mname, (gkind, gkw) in hand:
+        margins = [(rng.choice(["hem", "merton"]), {}) for _ in range(dim)]
+        copula_case(ctx, margins, rng.choice(zoo.COPULAS), gkind, gkw, mname,
+                    firsts=rng.choice([(), (mname,), ("INVERSION", "BINARYSEARCHTREEADAPTED")]) if dim == 2 else ())
     # n-d chains (d >= 3: the factory's pairing is the n-dimensional Rosenberg-Strong one, not increasing along a grid line) for the
     # INVERSION sampler: every copula once per run, on equal-sided fixed-size boxes and on credit grids whose origin is not the
     # middle of the axes (pairing indices skipped), small in quick; larger ones and d = 4 in thorough
